@@ -44,6 +44,10 @@ class LetFiller(Visitor):
         """Return a new Circuit with all Constants replaced in the
         body. The new circuit will retain the same information in the
         circuit.constants attribute."""
+        # Qubits and registers used in statements are re-emitted by name, so
+        # that the builder resolves them against the rebuilt registers (and
+        # re-validates indices against the new sizes).
+        self.register_names = set(circuit.registers)
         body = self.visit(circuit.body)
         statements = body[1:]
         reg_visitor = RegisterVisitor(self.override_dict)
@@ -97,37 +101,17 @@ class LetFiller(Visitor):
         return self.resolve_constant(const)
 
     def visit_NamedQubit(self, qubit):
-        """Visit a named qubit that may possibly have its index
-        remapped. Doing so will change the name of the qubit."""
-        if isinstance(qubit.alias_index, Constant):
-            new_index = self.resolve_constant(qubit.alias_index)
-            new_from = self.visit(qubit.alias_from)
-            return new_from[new_index]
-        else:
-            return qubit
+        """Visit a qubit used in a statement. It is re-emitted as a
+        reference by name (a single-qubit map alias) or as an indexing
+        expression with its index resolved, which may change the name of
+        the qubit."""
+        if qubit.name in self.register_names:
+            return qubit.name
+        return ["array_item", qubit.alias_from.name, self.visit(qubit.alias_index)]
 
     def visit_Register(self, reg):
-        """Visit either a fundamental register or a map alias. Either may
-        contain lurking let constants."""
-        if reg.fundamental:
-            if isinstance(reg.size, Constant):
-                new_size = self.resolve_constant(reg.size)
-                return ["register", reg.name, new_size]
-            else:
-                return reg
-        else:
-            new_alias_from = self.visit(reg.alias_from)
-            if reg.alias_slice is None:
-                new_alias_slice = None
-            else:
-                new_alias_slice = slice(
-                    self.visit(reg.alias_slice.start),
-                    self.visit(reg.alias_slice.stop),
-                    self.visit(reg.alias_slice.step),
-                )
-            return Register(
-                reg.name, alias_from=new_alias_from, alias_slice=new_alias_slice
-            )
+        """Visit a register (or register alias) used as an argument."""
+        return reg.name
 
     def visit_Macro(self, macro):
         """Remove any references to let constants in this macro body while
@@ -161,17 +145,35 @@ class LetFiller(Visitor):
 
 
 class RegisterVisitor(LetFiller):
-    """Specialization for handling registers and map aliases."""
+    """Specialization for handling register and map declarations. Each is
+    re-emitted as an S-expression naming its source, so that the rebuilt
+    aliases refer to the rebuilt registers."""
 
     def __init__(self, override_dict):
         super().__init__(override_dict)
 
     def visit_NamedQubit(self, qubit):
-        """Visit a named qubit that may possibly have its index
-        remapped. Doing so will change the name of the qubit."""
-        if isinstance(qubit.alias_index, Constant):
-            new_index = self.resolve_constant(qubit.alias_index)
-            new_from = self.visit(qubit.alias_from)
-            return NamedQubit(qubit.name, new_from, new_index)
-        else:
-            return qubit
+        """Visit a map alias of a single qubit, which may have a let
+        constant as its index."""
+        return [
+            "map",
+            qubit.name,
+            qubit.alias_from.name,
+            self.visit(qubit.alias_index),
+        ]
+
+    def visit_Register(self, reg):
+        """Visit either a fundamental register or a map alias. Either may
+        contain lurking let constants."""
+        if reg.fundamental:
+            return ["register", reg.name, self.visit(reg.size)]
+        if reg.alias_slice is None:
+            return ["map", reg.name, reg.alias_from.name]
+        return [
+            "map",
+            reg.name,
+            reg.alias_from.name,
+            self.visit(reg.alias_slice.start),
+            self.visit(reg.alias_slice.stop),
+            self.visit(reg.alias_slice.step),
+        ]
